@@ -1,0 +1,24 @@
+//go:build verif
+
+// Contracts for the core sequencer types, read by /verif/bin/gocv. Comment-only.
+package sequencer
+
+//@ spec func be64(Int) Bytes inverse be64dec
+//@ spec func be64dec(Bytes) Int
+
+// Batch.Hash feeds sha256 with the 8-byte number of transactions and then, for every transaction,
+// its 8-byte length followed by its bytes. That is a prefix-free encoding of the list, which is
+// what lets the hash stand for the list (equal hashes, equal lists - given sha256): callers use it
+// as the key of a batch. The format is proved call by call; that the digest is then an injective
+// function of the list ([hash]) is the assumption it justifies.
+//@ func (batch *Batch) Hash() (h, err)
+//@   property C10 C11
+//@   nopanic
+//@   observe wc := call Write@2
+//@   observe wl := call Write@3
+//@   observe wt := call Write@4
+//@   assumes [hash] err == nil && (batch != nil ==> val(h) == BatchHash(seq(batch.Transactions))) && len(h) == 32
+//@   ensures [no-error] err == nil
+//@   ensures [count-first] batch != nil && len(batch.Transactions) > 0 ==> wc.count == 1 && wc.arg1val == be64(len(batch.Transactions))
+//@   loop 1 invariant [length-prefixed] rangeindex >= -1 && (rangeindex >= 0 ==> wl.count == 1 && wt.count == 1 && wl.seq < wt.seq
+//@                       && wl.arg1val == be64(len(batch.Transactions[rangeindex])) && wt.arg1 == batch.Transactions[rangeindex])
